@@ -48,6 +48,28 @@ def check_setter_permutation(ctx, pool, td):
                       {'pool': pool.describe(), 'setters': [list(map(str, o)) for o in setters], 'perm': [list(map(str, o)) for o in perm]}, diff, 'bit-identical')
 
 
+def check_override_equivalence(ctx, pool, td):
+    """Two ways of installing the SAME final configuration: one material on all walls and another
+    one on a subset afterwards, versus each wall group set once.  Only the configuration in force
+    may matter."""
+    m0, m1 = ['m%d' % int(x) for x in ctx.rng.permutation(4)[:2]]
+    sub = sorted(int(w) for w in ctx.rng.permutation(histories.W)[:int(ctx.rng.integers(1, histories.W))])
+    rest = [w for w in range(histories.W) if w not in sub]
+    tail = [('A', 'a0'), ('B',), ('I', 's0'), ('X', 'p0', 1)]
+    style_a = [('S', list(range(histories.W)), m0), ('S', sub, m1)]
+    style_b = [('S', rest, m0), ('S', sub, m1)]
+    ra, s1 = histories.run_real(style_a + tail, pool, td)
+    rb, s2 = histories.run_real(style_b + tail, pool, td)
+    ctx.oracle_evals += 2
+    a, b = s1[-1], s2[-1]
+    diff = [k for k in a if a[k] != b[k] and k not in ('brdf', 'index')]
+    rec = scenes.coords(pool.recv)
+    if diff or not np.array_equal(ra.collect_energy_receiver_mono(rec).time, rb.collect_energy_receiver_mono(rec).time):
+        ctx.violation('installation-style-matters',
+                      'material %s on all walls then %s on walls %s gives different %s than %s on walls %s and %s on walls %s' % (m0, m1, sub, diff or 'receiver curve', m0, rest, m1, sub),
+                      {'pool': pool.describe(), 'style_a': [list(map(str, o)) for o in style_a], 'style_b': [list(map(str, o)) for o in style_b]}, diff, 'bit-identical')
+
+
 def check_idempotent(ctx, pool, td):
     base = [('S', [0, 1, 2, 3, 4, 5], 'm0'), ('A', 'a0')]
     for rep in ([('B',)], [('B',), ('I', 's1')], [('B',), ('I', 's1'), ('X', 'p1', 1)]):
@@ -94,7 +116,12 @@ def _run(ctx):
                 ctx.sample({'pool': pool.describe(), 'ops': [list(map(str, o)) for o in ops]}, limit=2)
             for h, line in enumerate(common.run_driver(lines)):
                 histories.compare(ctx, table, 'pool%d.h%d' % (pi, h), opss[h], reals[h], histories.parse_states(line))
+            # re-sourcing from a source that sees fewer patches than the previous one
+            for last in ('s3', 's4'):
+                check_history_vs_fresh(ctx, pool, td, ops=[('S', list(range(histories.W)), 'm1'), ('A', 'a1'), ('B',), ('I', 's0'),
+                                                            ('X', 'p0', 1), ('I', last), ('X', 'p0', 1)])
             check_setter_permutation(ctx, pool, td)
+            check_override_equivalence(ctx, pool, td)
             if pi == 0 or ctx.tier != 'quick':
                 check_idempotent(ctx, pool, td)
 
@@ -116,6 +143,7 @@ def _oracle(ctx, budget_s=60):
             pool = histories.Pool(ctx.rng)
             check_history_vs_fresh(ctx, pool, td)
             check_setter_permutation(ctx, pool, td)
+            check_override_equivalence(ctx, pool, td)
             check_idempotent(ctx, pool, td)
 
 
